@@ -481,6 +481,7 @@ def tagged_case(
     group_sizes=None,  # sizes of Pretext scaffolds to draw from
     all_painted=False,
     unprefixed_in_primary=False,  # Primary mode: also scaffolds without a haplotype prefix (a second non-primary curated assembly)
+    odd_haplotype_names=False,  # haplotype tag pairs that differ only in punctuation / blanks ("Hap 1" and "Hap_1")
 ):
     if exact:
         t = 1.0
@@ -489,7 +490,10 @@ def tagged_case(
     else:
         t = draw(texel(small=small_texel))
     two = draw(st.integers(0, 2)) == 0 if two_haplotypes is None else two_haplotypes
-    haps = draw(st.sampled_from([["Hap1", "Hap2"], ["hap1", "hap2"], ["HAP1", "HAP2"], ["mat", "pat"], ["1", "2"]])) if two else []
+    hap_pairs = [["Hap1", "Hap2"], ["hap1", "hap2"], ["HAP1", "HAP2"], ["mat", "pat"], ["1", "2"]]
+    if odd_haplotype_names:
+        hap_pairs += [["Hap 1", "Hap_1"], ["hap.a", "hap-a"], ["Hap 1", "Hap_1"]]
+    haps = draw(st.sampled_from(hap_pairs)) if two else []
     primary = bool(two) and fasta is None and (draw(st.integers(0, 3)) == 0 if primary_mode is None else primary_mode)
     if fasta is not None:
         from vf.props.c03 import fasta_input_plain
